@@ -88,7 +88,6 @@ def canonDrawing (cs : List Contour) : List (List (Int × Int)) :=
 def vfModel (skip : List String) (I : C09.Inst) (ms ms' : C09.Masters) (locs : List Q) :
     List (Q × String × Option Q × Option Q × List (List (Int × Int)) × List (List (Int × Int))) :=
   locs.flatMap (fun t => ((C09.allNames ms).filter (fun n => !skip.contains n)).map (fun n =>
-    (t, n, advanceAt I ms t n, advanceAt I ms' t n, canonDrawing (renderAt I ms t n),
-     canonDrawing (renderAtF ((C09.allNames ms).length + 2) I ms' t n))))
+    (t, n, advanceAt I ms t n, advanceAt I ms' t n, canonDrawing (renderAt I ms t n), canonDrawing (renderAt I ms' t n))))
 
 end Ufo2ft.C13
